@@ -260,7 +260,7 @@ def compare(case, io, mo):
         for x, y in zip(p[0], pred_m):
             if not np.isfinite(x) and not np.isfinite(y):
                 continue
-            if abs(x - y) > tol * sc:
+            if not (abs(x - y) <= tol * sc):
                 return f"diff:variant {name}: Trend prediction {x} vs exact model {y}"
     return "ok"
 
